@@ -93,7 +93,8 @@ var VerifLastGroup *VerifGroup
 // VerifMigrateErr, when non-nil, is returned by the next group's migration function.
 var VerifMigrateErr error
 
-var errVerifNotReady = errors.New("verif: migrations not run")
+// what go-ds-versioning answers until the migrations have run (pkg/types.go)
+var errVerifNotReady error = versioning.ErrMigrationsNotRun
 
 func verifNewVersionedFSM(ds datastore.Batching, parameters fsm.Parameters, migrations versioning.VersionedMigrationList, target versioning.VersionKey) (fsm.Group, func(context.Context) error, error) {
 	g := &VerifGroup{params: parameters, migrateErr: VerifMigrateErr}
